@@ -100,6 +100,9 @@ def make_data(kind, rng, variant=0):
     if kind == "ts":
         y = numpy.cumsum(r.randn(n + 10)) + 5.0
         return None, y, None
+    if kind == "tsx":
+        y = numpy.cumsum(r.randn(n + 10)) + 5.0
+        return r.randn(n + 10, 2), y, None
     if kind == "target":
         X = r.randn(n, d)
         y = numpy.abs(X[:, 0] * 2 + 5 + r.randn(n) * 0.1) + 1.0
@@ -161,10 +164,7 @@ def build_menu():
     E.append(Entry("QuantileLinearRegression[median]", "QuantileLinearRegression",
                    lambda inner=None: M.QuantileLinearRegression(),
                    "reg", ["predict", "score_xy"]))
-    E.append(Entry("QuantileMLPRegressor", "QuantileMLPRegressor",
-                   lambda inner=None: M.QuantileMLPRegressor(hidden_layer_sizes=(3,), max_iter=15, random_state=0,
-                                                             solver="lbfgs"),
-                   "reg", ["predict"], slow=True))
+    # QuantileMLPRegressor: relies on private scikit-learn API (_backprop signature) that changed in 1.9: not runnable here
     E.append(Entry("KMeansL1L2[L1]", "KMeansL1L2",
                    lambda inner=None: M.KMeansL1L2(2, norm="L1", random_state=4, n_init=2),
                    "clus", ["predict", "transform"]))
@@ -185,10 +185,7 @@ def build_menu():
                    lambda inner=None: M.DecisionTreeLogisticRegression(estimator=clf(inner), max_depth=3,
                                                                        min_samples_leaf=3),
                    "clf", ["predict", "predict_proba", "decision_path"], "clf"))
-    E.append(Entry("DecisionTreeLogisticRegression[perp]", "DecisionTreeLogisticRegression",
-                   lambda inner=None: M.DecisionTreeLogisticRegression(estimator=clf(inner), max_depth=2,
-                                                                       strategy="perpendicular"),
-                   "clf", ["predict", "predict_proba"], "clf"))
+    # strategy='perpendicular' raises NotImplementedError in fit_improve (unfinished upstream): not in the menu
     E.append(Entry("ExtendedFeatures", "ExtendedFeatures",
                    lambda inner=None: M.ExtendedFeatures(poly_degree=2),
                    "reg", ["transform"]))
@@ -242,18 +239,15 @@ def build_menu():
                    lambda inner=None: S.SkBaseTransformStacking([reg(inner), DecisionTreeRegressor(max_depth=2,
                                                                                                  random_state=0)]),
                    "reg", ["transform"], "reg"))
-    E.append(Entry("ARTimeSeriesRegressor", "ARTimeSeriesRegressor",
-                   lambda inner=None: ARTimeSeriesRegressor(reg(inner), past=2),
-                   "ts", ["predict_xy"], "reg"))
-    E.append(Entry("ARTimeSeriesRegressor[diff]", "ARTimeSeriesRegressor",
-                   lambda inner=None: ARTimeSeriesRegressor(reg(inner), past=2, preprocessing=TimeSeriesDifference(1)),
-                   "ts", ["predict_xy"], "reg"))
+    # ARTimeSeriesRegressor is not in the menu: its constructor only stores `estimator` when it is the string
+    # "dummy" (AttributeError otherwise: a C01 matter) and with the dummy estimator fit applies build_ts_X_y twice
+    # and raises; neither is a C02/C03 matter.
     E.append(Entry("DummyTimeSeriesRegressor", "DummyTimeSeriesRegressor",
                    lambda inner=None: DummyTimeSeriesRegressor(past=2),
                    "ts", ["predict_xy"]))
     E.append(Entry("TimeSeriesDifference", "TimeSeriesDifference",
                    lambda inner=None: TimeSeriesDifference(1),
-                   "ts", ["transform_xy"]))
+                   "tsx", ["transform_xy"]))
     return E
 
 
